@@ -67,6 +67,21 @@ theorem apply_neg_length_ne (c : Bool) (d : Str) (hv : Verbal d) :
 theorem verbal_to_be (x : Str) : Verbal (c!"to be" ++ x) := Or.inl rfl
 theorem verbal_to_have (x : Str) : Verbal (c!"to have" ++ x) := Or.inr (Or.inl rfl)
 
+/-- the transformer only rewrites the leading verb: whatever follows "to have" / "to be" is kept verbatim -/
+theorem apply_keeps_suffix_have (t : Tr) (x : Str) : ∃ pre, t.apply (c!"to have" ++ x) = pre ++ x := by
+  unfold Tr.apply
+  by_cases h : (!t.conjugate && !t.negative) = true
+  · simp only [h, if_true]; exact ⟨c!"to have", rfl⟩
+  · simp only [h, Bool.false_eq_true, if_false]
+    exact ⟨_, rfl⟩
+
+theorem apply_keeps_suffix_be (t : Tr) (x : Str) : ∃ pre, t.apply (c!"to be" ++ x) = pre ++ x := by
+  unfold Tr.apply
+  by_cases h : (!t.conjugate && !t.negative) = true
+  · simp only [h, if_true]; exact ⟨c!"to be", rfl⟩
+  · simp only [h, Bool.false_eq_true, if_false]
+    exact ⟨_, rfl⟩
+
 theorem Tr.neg_neg (t : Tr) : t.neg.neg = t := by cases t; simp [Tr.neg]
 
 theorem describeList_eq_map (ms : List M) (t : Tr) : describeList ms t = ms.map (fun m => describe m t) := by
